@@ -13,7 +13,7 @@
 
    Definitions only. *)
 From Coq Require Import List NArith Arith Bool Decimal DecimalNat.
-Require Import Model.Base Model.Ir.
+Require Import Model.Base Model.Ir Gen.SsaKey.
 Import ListNotations.
 
 Notation name := ident.                       (* list N, UTF-8 bytes *)
@@ -314,12 +314,22 @@ Definition ssa_key_old (v : vname) : list N :=
   | None => vn_name v
   end.
 
-(* Environment::version_key: name [.suffix] *)
-Definition ssa_key (v : vname) : list N :=
+(* Environment::version_key, after the repair.  The two arms of the function
+   are not copied by hand: Gen.SsaKey is regenerated on every run from the text
+   of ssa_impl.rs (lib/props/c10key.py) and lists the pieces each arm
+   concatenates -- currently [KName; KLit "."; KSuffix] and [KName].  A piece
+   the reader did not understand (KOther) renders as nothing; no theorem can be
+   proved about such a key (key_format_ok below is false for it). *)
+Definition render_key (ps : list kpiece) (n s : list N) : list N :=
+  flat_map (fun p => match p with KName => n | KSuffix => s | KLit b => b | KOther _ => [] end) ps.
+
+Definition ssa_key_with (some none : list kpiece) (v : vname) : list N :=
   match vn_suffix v with
-  | Some s => vn_name v ++ dot :: s
-  | None => vn_name v
+  | Some s => render_key some (vn_name v) s
+  | None => render_key none (vn_name v) []
   end.
+
+Definition ssa_key (v : vname) : list N := ssa_key_with version_key_some version_key_none v.
 
 (* IDENTIFIER of lang.lalrpop: [$_]*[a-zA-Z][a-zA-Z$_0-9]*; what matters
    here is only that an identifier contains no `.` *)
@@ -327,3 +337,13 @@ Definition ident_char (c : N) : bool :=
   (N.leb 97 c && N.leb c 122) || (N.leb 65 c && N.leb c 90) || (N.leb 48 c && N.leb c 57)
   || N.eqb c 36 || N.eqb c underscore.
 Definition ident_ok (n : name) : bool := forallb ident_char n.
+
+(* The decision behind the injectivity of the key: without a suffix the key is
+   the name; with one it is name, then a non-empty literal whose FIRST byte
+   cannot occur in an identifier, then the suffix.  (`{}{}`, `{}_{}`, `{}${}`
+   fail it; `{}.{}` passes.) *)
+Definition key_format_ok (some none : list kpiece) : bool :=
+  match none, some with
+  | [KName], [KName; KLit (c :: _); KSuffix] => negb (ident_char c)
+  | _, _ => false
+  end.
